@@ -12,6 +12,7 @@ four regions those hypotheses exclude each have a proved negation in `namespace 
 the real code by the harness (deterministic witness cases 0–3).
 -/
 import LinVerif.Lemmas.C12Layout
+import LinVerif.Lemmas.C12TopN
 import LinVerif.Generated.C12
 
 namespace LinVerif.Props.C12
@@ -313,6 +314,56 @@ theorem layout_independence (sp0 : List Spec) (cap : Nat) (hs : Simple sp0) (its
   simp only [d1, d2, e1, e2, a1, a2, c1, c2, Bool.not_true, Bool.false_eq_true, if_false]
   rw [rows_of_naive sp0 cap its A1 A2 n1 n2]
 
+/-! ## 5. order by / top N / limit -/
+
+/-- **orderby_topn_deterministic**: when `topNHeap.Less` is a strict total order on the rows (no
+two distinct rows tie on all order-by keys), the rows `topNHeap.Add` keeps do not depend on the
+order in which the groups are pushed (Go map iteration order): any two push orders give the same
+set of rows — the `limit` greatest — and `makeResultSet` then sorts them by tag values. -/
+theorem orderby_topn_deterministic (less : Row → Row → Bool) (limit : Nat) (rows rows' : List Row)
+    (hn : rows.Nodup) (hp : rows.Perm rows') (ho : StrictTotalOn less rows) :
+    (topN less limit rows).Perm (topN less limit rows') := by
+  have hn' : rows'.Nodup := hp.nodup_iff.mp hn
+  have ho' : StrictTotalOn less rows' := ho.mono (fun x hx => hp.mem_iff.mpr hx)
+  have t1 := isTop_topN less limit rows hn ho
+  have t2 := isTop_perm less limit hp _ (isTop_topN less limit rows' hn' ho')
+  exact (List.perm_ext_iff_of_nodup t1.nodup t2.nodup).mpr (fun x =>
+    ⟨isTop_subset less limit rows _ _ ho t1 t2 x, isTop_subset less limit rows _ _ ho t2 t1 x⟩)
+
+/-- what is kept: `limit` rows (or all of them), each of which beats every dropped row -/
+theorem topn_keeps_the_greatest (less : Row → Row → Bool) (limit : Nat) (rows : List Row)
+    (hn : rows.Nodup) (ho : StrictTotalOn less rows) :
+    (topN less limit rows).length = min limit rows.length ∧
+    (∀ x ∈ topN less limit rows, x ∈ rows) ∧
+    (∀ x ∈ topN less limit rows, ∀ y ∈ rows, y ∉ topN less limit rows → less y x = true) := by
+  have t := isTop_topN less limit rows hn ho
+  refine ⟨?_, t.sub, t.dom⟩
+  have hle : (topN less limit rows).length ≤ rows.length :=
+    (List.subperm_of_subset t.nodup t.sub).length_le
+  by_cases hl : (topN less limit rows).length < limit
+  · have : rows.length ≤ (topN less limit rows).length :=
+      (List.subperm_of_subset hn (t.full hl)).length_le
+    omega
+  · have := t.len; omega
+
+/-- the hypothesis in terms of the query: for the real comparison function it is enough that no
+two distinct rows have the same vector of order-by keys -/
+theorem orderby_deterministic_of_distinct_keys (ords : List OrdItem) (limit : Nat) (rows rows' : List Row)
+    (hn : rows.Nodup) (hp : rows.Perm rows')
+    (hk : ∀ a ∈ rows, ∀ b ∈ rows, a ≠ b → keyVec ords a ≠ keyVec ords b) :
+    (topN (rowLess ords) limit rows).Perm (topN (rowLess ords) limit rows') :=
+  orderby_topn_deterministic _ limit rows rows' hn hp (strictTotal_of_distinct_keys ords rows hk)
+
+/-- ties are exposed, not hidden: two groups with equal keys and `limit 1` — the survivor is
+whichever was pushed first (in the code: whichever the map iteration yields first). The same
+holds for `limit` without `order by` (`resultLimiter` keeps the first `limit` pushed rows). -/
+theorem ties_are_order_dependent :
+    let a : Row := { tags := 0, vals := [some [(0, 5)]] }
+    let b : Row := { tags := 1, vals := [some [(0, 5)]] }
+    let ords : List OrdItem := [{ fn := 1, desc := true, sel := some 0 }]
+    topN (rowLess ords) 1 [a, b] = [a] ∧ topN (rowLess ords) 1 [b, a] = [b] ∧
+    limiter 1 [a, b] = [a] ∧ limiter 1 [b, a] = [b] := by decide
+
 /-! ## 6. the property at full strength, and where the code violates it -/
 
 /-- a node of a placement: its node-local schema of the metric (`none`: never saw it) and the
@@ -453,5 +504,56 @@ theorem full_statement_false : ¬ FullStatement .code := by
   exact absurd this (by decide)
 
 end Neg
+
+/-! ## 7. ties to the regenerated facts (`lvh extract` re-reads /repo's source on every run) -/
+
+open LinVerif.Generated.C12 in
+/-- the variant of `handleResponse` / `fieldAggregator.Aggregate` the source currently has is the
+one the theorems above call `Variant.code` (if a repair lands, this obligation fails by name and
+the `Neg` witnesses are due for removal) -/
+theorem generated_variant_is_code :
+    (⟨mergesLaterSpecs, crossFeeds⟩ : Variant) = Variant.code := by decide
+
+open LinVerif.Generated.C12 in
+theorem generated_first_response_rule :
+    aggregatorCreatedOnce = true ∧ groupAggCalls = ["Aggregate"] ∧
+    skipsFieldWithoutAggregator = true ∧ skipsSeriesWithoutFields = true := by decide
+
+open LinVerif.Generated.C12 in
+/-- the statement order `Ctx.handle` / `Ctx.absorb` mirror -/
+theorem generated_handleResponse_steps :
+    handleResponseSteps = ["mutex.Lock", "defer mutex.Unlock", "ctx.handleTaskState", "ctx.expectResults--",
+      "ctx.handleStats", "ignoreResponse :=", "if err != nil", "if ignoreResponse", "tsList :=", "if err != nil",
+      "if len(tsList.FieldAggSpecs) == 0", "ctx.timeRange =", "ctx.interval =", "range tsList.FieldAggSpecs",
+      "if ctx.groupAgg == nil", "range tsList.TimeSeriesList"] := by decide
+
+open LinVerif.Generated.C12 in
+theorem generated_checkError :
+    checkErrorSteps = ["if errMsg == \"\"", "if !strings.Contains(errMsg, \"not found\")",
+      "ctx.tolerantNotFounds--", "if ctx.tolerantNotFounds > 0", "ReturnError: return true, errors.New(errMsg)"] ∧
+    notFoundNeedle = "not found" ∧ tryCloseCond = "ctx.expectResults <= 0 || ctx.err != nil" ∧
+    addRequestsIncs = ["ctx.expectResults++", "ctx.tolerantNotFounds++"] := by decide
+
+open LinVerif.Generated.C12 in
+/-- `AggType` codes and `AggType.Aggregate` are what `Kind.code` / `Kind.agg` model -/
+theorem generated_aggregate_table :
+    aggTypeCodes = [("Sum", 1), ("Count", 2), ("Min", 3), ("Max", 4), ("Last", 5), ("First", 6)] ∧
+    aggregateExprs = [(1, "a + b"), (2, "a + b"), (3, "math.Min(a, b)"), (4, "math.Max(a, b)"), (5, "b"), (6, "a")] ∧
+    Kind.all.map Kind.code = aggTypeCodes.map Prod.snd := by decide
+
+open LinVerif.Generated.C12 in
+/-- the field-type tables of the model are the ones in series/field/type.go -/
+theorem generated_field_tables :
+    (funcFieldParams.all (fun r => (funcKinds r.1 r.2.1).map Kind.code == r.2.2)) = true ∧
+    (defaultFieldParams.all (fun r => (defaultKinds r.1).map Kind.code == r.2)) = true ∧
+    (orderByFuncs.all (fun r => orderByFunc r.1 == r.2)) = true ∧
+    (downSamplingFuncs.all (fun r => downSamplingFunc r.1 == r.2)) = true ∧
+    ((List.range 7).all (fun t => (List.range 11).all (fun f =>
+        funcSupported t f == supportedFuncs.contains (t, f)))) = true := by decide
+
+open LinVerif.Generated.C12 in
+theorem generated_hash_and_routing :
+    receiverIndexExpr = "int(h % uint64(numOfReceivers))" ∧ receiverHashExpr = "xxhash.Sum64String(ts.Tags)" ∧
+    shardIdxExpr = "int(jump.Hash(br.rows[i].m.KvsHash(), numOfShards))" := by decide
 
 end LinVerif.Props.C12
